@@ -48,6 +48,7 @@ class SessionSem(Semantics):
         self.unknown = []        # things the interpreter did not understand (fail closed)
         self._roles = {}
         self._exec = {}
+        self._priv = {}
         self.depth = 0
         self.n_store_calls = 0
 
@@ -496,6 +497,33 @@ class SessionSem(Semantics):
                         self.unknown.append('post-state closure returns an unknown variant at %s' % cbody.loc())
                 succ.append(('next', p))
             return succ
+        if short == 'core::bool::{impl bool}::then' and len(term['args']) == 2:
+            # `cond.then(|| value)`: Some(closure result) when the condition holds, None otherwise
+            cond = interp.bool_value(path, body, arg_local(0))[0] if arg_local(0) is not None else None
+            cl = arg_local(1)
+            clear_dest()
+            succ = []
+            if cond is not True and dk is not None:
+                pn = path.fork() if cond is None else path
+                pn.tags[dk] = 'opt:None'
+                succ.append(('next', pn))
+            if cond is not False:
+                ups, cdef = closure_upvars(interp, path, body, cl) if cl is not None else ({}, None)
+                cands = [b for b in self.fb.bodies_of_item(CR, body.nroot) if cdef and (b.id == cdef or b.nid == strip_generics(cdef))]
+                if not cands:
+                    self.unknown.append('closure of bool::then not found at %s' % body.loc(bb, term))
+                    return [('next', path)]
+                sub = path.fork()
+                for oc in interp.run(cands[0], None, upvars=ups, path=sub):
+                    if oc[0] != 'return':
+                        succ.append(('panic', oc[1], oc[2]))
+                        continue
+                    p = oc[1]
+                    t = p.tags.get((cands[0].id, 0))
+                    if dk is not None:
+                        p.tags[dk] = ('some:' + t) if t else 'opt:Some'
+                    succ.append(('next', p))
+            return succ
         if short in ('core::result::Result::is_ok', 'core::result::Result::is_err'):
             t = arg_tag(0)
             clear_dest()
@@ -559,7 +587,7 @@ class SessionSem(Semantics):
                 path.tags[dk] = 'val:random'
             return [('next', path)]
         # --- the crate's own functions: descend -------------------------------------------------------------------
-        if short.startswith(M) and self.depth < 6:
+        if (short.startswith(M) or self._crate_private(short)) and self.depth < 6:
             cb = self.exec_body(short)
             if cb is not None:
                 arg_tags = [arg_tag(i) for i in range(len(term['args']))]
@@ -611,6 +639,19 @@ class SessionSem(Semantics):
                     succ.append(('next', p))
                 return succ
         return None
+
+    def _crate_private(self, short):
+        """a function of pavex_session outside the session module that is not part of the public API (pub(crate) / pub(super) / private):
+        session logic that was moved next to the data it works on (e.g. cookie building on the cookie configuration) is still session logic"""
+        if not short.startswith(CR + '::'):
+            return False
+        if short not in self._priv:
+            try:
+                b = self.fb.body(CR, short)
+            except KeyError:
+                b = None
+            self._priv[short] = b is not None and b.raw.get('vis') not in (None, 'Public') and not b.raw.get('exp')
+        return self._priv[short]
 
     def _const_variant(self, body, term, enum):
         """variant of the promoted constant a config value is compared with"""
